@@ -130,6 +130,158 @@ theorem connect_connected {cfg : Cfg} {o : Oracle} {k : Connected} (h : connect 
     exact ⟨obs, v, by simpa [ProxyMode.tunneling, isTunnelHttps] using hw, by simpa [hmode] using hv,
       by simpa [hmode] using hp, by simpa using hws⟩
 
+/-! ## The TLS-layer calls of every outcome (successful or not) -/
+
+/-- the TLS-layer call made by one `wrapAndMatch`, if it got that far -/
+def WrapRes.obs? : WrapRes → Option WrapObs
+  | .raised _ => none
+  | .wrapFailed o _ => some o
+  | .checkFailed o _ => some o
+  | .ok o _ => some o
+
+/-- the TLS-layer calls made by `connect()`, whether it returned or raised -/
+def ConnRes.wraps : ConnRes → List WrapObs
+  | .error _ _ ws _ => ws
+  | .connected k => k.wraps
+
+/-- "no CA material was configured and urllib3 built the context itself" (and the context class has
+`load_default_certs`, i.e. it is not a `PyOpenSSLContext`) -/
+def wantsSystemStore (env : Env) (caGiven : Bool) (ctx : Option Ctx) : Bool :=
+  !caGiven && ctx.isNone && !env.isPyOpenSSL
+
+theorem createUrllib3Context_kind {env : Env} {m : VerifyMode} {c : Ctx}
+    (h : createUrllib3Context env m = .ok c) :
+    c.kind = (if env.isPyOpenSSL then .pyopenssl else .stdlib) := by
+  rcases env with ⟨py, ncn⟩
+  cases py <;> cases m <;>
+    simp_all [createUrllib3Context, freshContext, Ctx.setVerifyMode, Ctx.setCheckHostname] <;>
+    (subst h; rfl)
+
+theorem setVerifyMode_kind {c c' : Ctx} {m : VerifyMode} (h : c.setVerifyMode m = .ok c') :
+    c'.kind = c.kind := by
+  unfold Ctx.setVerifyMode at h
+  split at h
+  · split at h
+    · cases h
+    · injection h with h; subst h; rfl
+  · injection h with h; subst h; rfl
+
+theorem setCheckHostname_kind (c : Ctx) (b : Bool) : (c.setCheckHostname b).kind = c.kind := by
+  unfold Ctx.setCheckHostname
+  split
+  · split <;> rfl
+  · rfl
+
+/-- what `_ssl_wrap_socket_and_match_hostname` hands to the TLS layer, in every outcome:
+`load_default_certs()` was called iff no CA material was given, the context is urllib3's own and it
+is a stdlib context -/
+theorem wrap_obs (env : Env) (isIp : Str → Bool) (p : PeerOracle) (cr : CertReqs) (ca : Bool)
+    (ah : AssertHostname) (fp : Option Str) (sh : Str) (ctx : Option Ctx) (tit : Bool) (obs : WrapObs)
+    (h : (wrapAndMatch env isIp p cr ca ah fp sh ctx tit).obs? = some obs) :
+    obs.loadDefault = wantsSystemStore env ca ctx ∧ obs.tlsInTls = tit ∧ obs.caGiven = ca := by
+  unfold wrapAndMatch at h
+  simp only [] at h
+  split at h
+  · cases h
+  · rename_i context hcreated
+    split at h
+    · cases h
+    · rename_i context' hset
+      have hk' : context'.kind = context.kind := setVerifyMode_kind hset
+      have hkind : ∀ c'' : Ctx, c''.kind = context'.kind →
+          (!ca && ctx.isNone && c''.kind == CtxKind.stdlib) = wantsSystemStore env ca ctx := by
+        intro c'' hc''
+        unfold wantsSystemStore
+        rcases ctx with _ | c0
+        · have := createUrllib3Context_kind hcreated
+          rw [hc'', hk', this]
+          cases env.isPyOpenSSL <;> simp
+        · simp
+      have hobs : ∀ c'' : Ctx, c''.kind = context'.kind → ∀ o' : WrapObs,
+          o' = { serverHostname := normServerHostname isIp sh, verifyMode := c''.verifyMode,
+                 checkHostname := c''.checkHostname, caGiven := ca, tlsInTls := tit,
+                 loadDefault := (!ca && ctx.isNone && c''.kind == CtxKind.stdlib) } →
+          o'.loadDefault = wantsSystemStore env ca ctx ∧ o'.tlsInTls = tit ∧ o'.caGiven = ca := by
+        intro c'' hc'' o' ho'
+        subst ho'
+        exact ⟨hkind c'' hc'', rfl, rfl⟩
+      split at h
+      · rename_i hcond
+        have hc := setCheckHostname_kind context' false
+        repeat' (split at h)
+        all_goals (first | (cases h; done) | (simp only [WrapRes.obs?] at h; injection h with h; exact hobs _ hc _ h.symm))
+      · repeat' (split at h)
+        all_goals (first | (cases h; done) | (simp only [WrapRes.obs?] at h; injection h with h; exact hobs _ rfl _ h.symm))
+
+theorem connectTail_wraps (cfg : Cfg) (o : Oracle) (piv : Option Bool) (ws : List WrapObs) (tit : Bool)
+    (sh : Str) (w : WrapObs) (hw : w ∈ (connectTail cfg o piv ws tit sh).wraps) :
+    w ∈ ws ∨ (w.loadDefault = wantsSystemStore cfg.env cfg.caGiven cfg.sslContext ∧ w.tlsInTls = tit) := by
+  unfold connectTail at hw
+  simp only [] at hw
+  split at hw
+  · left; exact hw
+  · rename_i obs e hres
+    simp only [ConnRes.wraps, List.mem_append, List.mem_singleton] at hw
+    rcases hw with hw | rfl
+    · left; exact hw
+    · right
+      have := wrap_obs _ _ _ _ _ _ _ _ _ _ w (by rw [hres]; rfl)
+      exact ⟨this.1, this.2.1⟩
+  · rename_i obs e hres
+    simp only [ConnRes.wraps, List.mem_append, List.mem_singleton] at hw
+    rcases hw with hw | rfl
+    · left; exact hw
+    · right
+      have := wrap_obs _ _ _ _ _ _ _ _ _ _ w (by rw [hres]; rfl)
+      exact ⟨this.1, this.2.1⟩
+  · rename_i obs v hres
+    simp only [ConnRes.wraps, List.mem_append, List.mem_singleton] at hw
+    rcases hw with hw | rfl
+    · left; exact hw
+    · right
+      have := wrap_obs _ _ _ _ _ _ _ _ _ _ w (by rw [hres]; rfl)
+      exact ⟨this.1, this.2.1⟩
+
+/-- every TLS-layer call of `connect()` — returned or raised —: the one to an https proxy we tunnel
+through (`tls_in_tls = False` in that mode) follows the proxy's settings, every other one the
+connection's -/
+theorem connect_wraps (cfg : Cfg) (o : Oracle) (w : WrapObs) (hw : w ∈ (connect cfg o).wraps) :
+    w.loadDefault =
+      (if cfg.mode = .tunnelHttps ∧ w.tlsInTls = false then
+        wantsSystemStore cfg.env cfg.caGiven cfg.proxy.sslContext
+       else wantsSystemStore cfg.env cfg.caGiven cfg.sslContext) := by
+  unfold connect at hw
+  simp only [] at hw
+  cases hmode : cfg.mode <;> simp only [hmode] at hw
+  · rcases connectTail_wraps _ _ _ _ _ _ _ hw with h | h
+    · cases h
+    · simp [h.1]
+  · rcases connectTail_wraps _ _ _ _ _ _ _ hw with h | h
+    · cases h
+    · simp [h.1]
+  · split at hw
+    · cases hw
+    · rename_i obs e hres
+      simp only [ConnRes.wraps, List.mem_singleton] at hw
+      subst hw
+      have := wrap_obs _ _ _ _ _ _ _ _ _ _ w (by rw [hres]; rfl)
+      simp [this.1, this.2.1]
+    · rename_i obs e hres
+      simp only [ConnRes.wraps, List.mem_singleton] at hw
+      subst hw
+      have := wrap_obs _ _ _ _ _ _ _ _ _ _ w (by rw [hres]; rfl)
+      simp [this.1, this.2.1]
+    · rename_i obs v hres
+      have hp := wrap_obs _ _ _ _ _ _ _ _ _ _ obs (by rw [hres]; rfl)
+      rcases connectTail_wraps _ _ _ _ _ _ _ hw with h | h
+      · simp only [List.mem_singleton] at h
+        subst h
+        simp [hp.1, hp.2.1]
+      · simp [h.1, h.2]
+  · rcases connectTail_wraps _ _ _ _ _ _ _ hw with h | h
+    · cases h
+    · simp [h.1]
+
 /-! ## Concrete instances used by the non-vacuity examples and the counterexample in `Props/C07` -/
 namespace Ex
 
@@ -166,6 +318,19 @@ request to `https://www/` -/
 def pinnedProxyTunnel : Cfg :=
   { dflt with certReqs := .short .none, mode := .tunnelHttps, host := prx, tunnelHost := www,
               proxy := { sslContext := none, assertHostname := .unset, assertFingerprint := some pin } }
+
+/-- `ProxyManager("https://prx", use_forwarding_for_https=True)`, request to `https://www/`: the
+only TLS peer is the proxy -/
+def forwarding : Cfg := { dflt with mode := .forwardHttps, host := prx }
+
+/-- every setting at its default and no CA material at all: the OS default store is the anchor -/
+def sysDefault : Cfg := { dflt with caGiven := false }
+
+/-- an origin whose chain validates against the OS default store only -/
+def sysOnly : Oracle :=
+  { isIp := fun _ => false,
+    origin := { goodPeer with validConfigured := false, validSystem := true },
+    proxy := goodPeer }
 
 end Ex
 end U3.Tls
